@@ -16,7 +16,7 @@ EXPLANATION = ('(1) R-NULL check-then-use on every function of property.cpp (a p
                'occupied item then clears, next stops at items+capacity). Payload obligations per table: del/cluster-move '
                'empties the old slot and writes every field of the item struct in the new slot; set/add writes every field. '
                '(3) Array<T>: grow-before-shift in insert, exactly one count decrement in remove/remove_unordered, copy_from '
-               'allocates count items. (4) property-list copies append at the tail and deep-copy. Decides these structural '
+               'allocates count items. (4) property-list copies append at the tail and deep-copy, and remove_property leaves the function right after the first removal unless all occurrences were requested. Decides these structural '
                'necessary conditions; does not decide equivalence with an abstract map over operation histories, nor sort.')
 ASSUMPTIONS = ['the frozen reference skeletons in this module were confirmed by reading the pinned tree',
                'hash() is total and deterministic (not analysed)']
@@ -524,6 +524,31 @@ def check_heap(ctx, db):
     ctx.require('R-BOUND.inclusive comparisons', n, 4)
 
 
+def check_single_removal(ctx, db):
+    """remove_property(..., all_occurences=false) removes at most one entry: each removal is immediately
+    followed by the function's exit under `!all_occurences` (a `break` would fall into the next removal loop)."""
+    f = db.fn('gdstk::remove_property')
+    ctx.touch(f)
+    norm = lambda t: re.sub(r'<[A-Za-z]+:(?!:)[^>]*>', '', t).replace('gdstk::', '')
+    incs = [x for x in f.walk() if x.k == 'UnaryOperator' and x.op in ('++', 'post++') and norm(x.child('sub').text()) == 'removed']
+    bad = []
+    for x in incs:
+        blk = x.parent
+        if blk is None or blk.k != 'CompoundStmt':
+            bad.append('%s: removal count updated outside a block' % x.loc())
+            continue
+        i = blk.c.index(x)
+        nxt = next((s_ for s_ in blk.c[i + 1:] if s_ is not None), None)
+        ok = nxt is not None and nxt.k == 'IfStmt' and norm(nxt.child('cond').text()) == '(!all_occurences)' and nxt.child('else') is None
+        if ok:
+            th = nxt.child('then')
+            ok = th.k == 'ReturnStmt' or (th.k == 'CompoundStmt' and len([c for c in th.c if c is not None]) == 1 and th.c[0].k == 'ReturnStmt')
+        if not ok:
+            bad.append('%s: after this removal the function does not return under `!all_occurences`' % x.loc())
+    ctx.check(len(incs) == 2 and not bad, 'R-MUSTPASS', 'remove_property/single-occurrence-exit', f.loc(), 'both removal sites (list head, interior) return immediately when only one occurrence is requested',
+              '; '.join(bad) or 'expected two removal sites, found %d' % len(incs))
+
+
 def run(ctx):
     db = ctx.db
     nullable = flow.nullable_functions(db)
@@ -532,6 +557,7 @@ def run(ctx):
     check_payload(ctx, db)
     check_array(ctx, db)
     check_heap(ctx, db)
+    check_single_removal(ctx, db)
     # positive control for the contradiction rule
     cdb = load_controls()
     for name, expect in (('ctl_list_head_removal', True), ('ctl_list_head_removal_ok', False)):
@@ -543,7 +569,7 @@ def run(ctx):
 
 
 MANIFEST = dict(
-   text='Decides structural necessary conditions of the container models on all paths: (1) check-then-use null contradictions in every property-list function (a pointer the function itself null-tests, re-assigned from a list tail and dereferenced untested); (2) the four open-addressing tables (Map<T>, Set<T>, TagMap, StyleMap; every member instantiated explicitly) have control skeletons equal to a frozen reference after abstracting the table-specific empty-slot predicate (probe wrap at items+capacity, load-factor test before get_slot, count++ only on an empty slot, del = empty + count-- + cluster re-insertion until the first empty slot, resize re-inserts every occupied item then clears, next bounded by items+capacity), payload obligations (old slot emptied, every item field written), count==0 guard before every look-up; (3) Array<T> bookkeeping; (4) property-list copies append at the tail and deep-copy. (5) heap sort (introsort fallback): child/parent index formulas evaluated for small indices, every comparison of a child index with the inclusive bound `end` is `<=`, the build phase passes count-1, and after the maximum is swapped to items[end] the sift range excludes that slot. Does not decide equivalence with an abstract map/multimap over operation histories, nor that sort orders every input (value-dependent; only the index discipline of the heap part is decided).',
+   text='Decides structural necessary conditions of the container models on all paths: (1) check-then-use null contradictions in every property-list function (a pointer the function itself null-tests, re-assigned from a list tail and dereferenced untested); (2) the four open-addressing tables (Map<T>, Set<T>, TagMap, StyleMap; every member instantiated explicitly) have control skeletons equal to a frozen reference after abstracting the table-specific empty-slot predicate (probe wrap at items+capacity, load-factor test before get_slot, count++ only on an empty slot, del = empty + count-- + cluster re-insertion until the first empty slot, resize re-inserts every occupied item then clears, next bounded by items+capacity), payload obligations (old slot emptied, every item field written), count==0 guard before every look-up; (3) Array<T> bookkeeping; (4) property-list copies append at the tail and deep-copy, and remove_property leaves the function right after the first removal unless all occurrences were requested. (5) heap sort (introsort fallback): child/parent index formulas evaluated for small indices, every comparison of a child index with the inclusive bound `end` is `<=`, the build phase passes count-1, and after the maximum is swapped to items[end] the sift range excludes that slot. Does not decide equivalence with an abstract map/multimap over operation histories, nor that sort orders every input (value-dependent; only the index discipline of the heap part is decided).',
    note='Trusted: clang 14 front end, gx, sa rules; the frozen reference skeletons in sa/props/C20.py were confirmed by reading the pinned tree (a consistent refactor of all tables is reported as differing from the reference, exit 1 naming the method, to be re-confirmed by a human); hash() not analysed.',
    technique='clone-family comparison with predicate abstraction over typed ASTs + nullness dataflow (check-then-use contradiction) over the clang CFG',
    design='§4 C20')
